@@ -217,3 +217,103 @@ func vf_GetField(ptr any, field string) any {
 	f := v.FieldByName(field)
 	return reflect.NewAt(f.Type(), unsafe.Pointer(f.UnsafeAddr())).Elem().Interface()
 }
+
+// ---- vf_Any: native reconstruction of a lazily materialised object from the model -----------------
+
+func vfCleanPaths() []string {
+	var ps []string
+	for k := range vfS.model {
+		k = strings.TrimPrefix(k, "choose:")
+		if i := strings.LastIndex(k, "#"); i >= 0 {
+			k = k[:i]
+		}
+		ps = append(ps, k)
+	}
+	return ps
+}
+
+func vfPoolFor(pools map[string][]string, path string) []string {
+	field := path
+	if i := strings.LastIndex(path, "."); i >= 0 {
+		field = path[i+1:]
+	}
+	field = strings.TrimRight(field, "*")
+	if i := strings.Index(field, "["); i >= 0 {
+		field = field[:i]
+	}
+	if p, ok := pools[field]; ok {
+		return p
+	}
+	if p, ok := pools["*"]; ok {
+		return p
+	}
+	return []string{"", "a"}
+}
+
+func vf_Any(name string, ptr any, pools map[string][]string) {
+	paths := vfCleanPaths()
+	has := func(p string) bool {
+		for _, q := range paths {
+			if strings.HasPrefix(q, p) {
+				return true
+			}
+		}
+		return false
+	}
+	var fill func(v reflect.Value, path string, depth int)
+	fill = func(v reflect.Value, path string, depth int) {
+		if depth > 40 || !has(path) || !v.CanSet() {
+			return
+		}
+		switch v.Kind() {
+		case reflect.Struct:
+			for i := 0; i < v.NumField(); i++ {
+				fill(v.Field(i), path+"."+v.Type().Field(i).Name, depth+1)
+			}
+		case reflect.Array:
+			for i := 0; i < v.Len(); i++ {
+				fill(v.Index(i), fmt.Sprintf("%s[%d]", path, i), depth+1)
+			}
+		case reflect.Pointer:
+			if k, ok := vfS.model["choose:"+path+"#nil"]; ok && k == 0 {
+				v.Set(reflect.New(v.Type().Elem()))
+				fill(v.Elem(), path+"*", depth+1)
+			}
+		case reflect.Slice:
+			k, ok := vfS.model["choose:"+path+"#len"]
+			if !ok || k == 0 {
+				return
+			}
+			n := int(k) - 1
+			v.Set(reflect.MakeSlice(v.Type(), n, n))
+			for i := 0; i < n; i++ {
+				fill(v.Index(i), fmt.Sprintf("%s[%d]", path, i), depth+1)
+			}
+		case reflect.Map:
+			k, ok := vfS.model["choose:"+path+"#map"]
+			if !ok || k == 0 {
+				return
+			}
+			v.Set(reflect.MakeMap(v.Type()))
+			if k == 2 && v.Type().Key().Kind() == reflect.String {
+				keys := vfPoolFor(pools, path+"#key")
+				key := keys[int(vfS.model["choose:"+path+"#k"])%len(keys)]
+				ev := reflect.New(v.Type().Elem()).Elem()
+				fill(ev, path+"["+key+"]", depth+1)
+				v.SetMapIndex(reflect.ValueOf(key).Convert(v.Type().Key()), ev)
+			}
+		case reflect.String:
+			if idx, ok := vfS.model["choose:"+path+"#s"]; ok {
+				pool := vfPoolFor(pools, path)
+				v.SetString(pool[int(idx)%len(pool)])
+			}
+		case reflect.Bool:
+			v.SetBool(vfS.model[path] != 0)
+		case reflect.Int, reflect.Int8, reflect.Int16, reflect.Int32, reflect.Int64:
+			v.SetInt(int64(vfS.model[path]))
+		case reflect.Uint, reflect.Uint8, reflect.Uint16, reflect.Uint32, reflect.Uint64, reflect.Uintptr:
+			v.SetUint(vfS.model[path])
+		}
+	}
+	fill(reflect.ValueOf(ptr).Elem(), name, 0)
+}
